@@ -20,13 +20,40 @@ the same result and leaves the user's own objects rendering as before; (e) histo
 document object (render / append / save_html into a temp dir / copy.copy, any order): every
 render equals what a fresh document built from all content supplied so far renders.
 
+ENTRY POINTS AND ARGUMENTS that reach what the statement describes, and where each is exercised
+(check_routes judges every one of them against expected_document, the statement's document):
+  HTMLDocument(*args, **kwargs)          every case; kwargs: lang / class_ / class / style / id / data_x / xml__lang / for_
+                                         with str, HTML, None, bool, int, float, rejected list; _add_ws / _name; 7..300 kwargs
+                                         (big cases); kwargs that come out of consolidate_attrs(*args, **kw) (an attrs dict made
+                                         by another Tag); htmltools.HTMLDocument and htmltools._core.HTMLDocument
+  HTMLDocument.append(*args)             split cases, histories, one append per item (routes), 7..300 append calls (big cases)
+  HTMLDocument.render(*, lib_prefix="lib", include_version=True)
+                                         explicit values None / "" / "lib" / "lib/" / nested a/b(/c) / blanks / non-ASCII / regex
+                                         metacharacters / .. / absolute; include_version on and off; each argument left to its
+                                         default (routes); twice on one object; after the returned dict was emptied by the caller
+  HTMLDocument.save_html(file, libdir="lib", include_version=True)
+                                         keywords, positionally, defaults; the file is read back (histories, routes)
+  Tag.save_html / TagList.save_html(file, *, libdir=, include_version=)   = HTMLDocument(self).save_html (routes)
+  copy.copy(doc) / copy.deepcopy(doc)    histories (copy, then both are appended to / rendered), routes
+  head_content(*args)                    as a dependency of the document (every stream), its naming (check_head_content: content-
+                                         named, near-duplicates up to 70000 characters of every UTF-8 width, 7..300 nodes)
+  HTMLDependency.as_html_tags(*, lib_prefix=, include_version=)   every dependency of every case (its four parts)
+  htmltools.html_dependency_render_mode = "json"   the document renders the same (routes; str()/repr() of tags are C13's subject)
+  with tag: / sys.displayhook / wrap_displayhook_handler   content built through with-blocks, then put into a document (routes)
+  TagList.__add__ / __radd__ / __iadd__, TagList.tagify()   content combined / tagified beforehand, then put into a document
+  objects: tagifiable, self-rendering, BOTH (CustomReprObj); one Tag object in two parents (case['share']); one dependency
+           object at many places; user content that looks like what the document inserts (rand_lookalike)
+  not reached from here: Tag.show() / TagList.show() (opens a browser / needs IPython; they call save_html), HTMLTextDocument
+  (text templates: C13), Tag.get_html_string(indent=, eol=) (HTMLDocument.render has no layout arguments: C01).
+
 Descriptions are plain JSON lists:
   node ::= ["T", s] | ["H", s] | ["R", s] | ["N"] | ["D", i] | ["G", name, ws, attrs, kids]
-         | ["L", how, kids] | ["C", exp, as_list]          attrs = [[key, "S"|"H", value], ...]
+         | ["L", how, kids] | ["C", exp, as_list] | ["C", exp, as_list, own_html]      attrs = [[key, "S"|"H", value], ...]
   dep  ::= {"kind": "dep", name, version, source, meta, stylesheet, script, head}
          | {"kind": "hc", "args": [node]}                   head = None | ["str", s] | ["nodes", [node]]
   case ::= {"deps": [dep], "args": [node], "split": [k1, k2...], "kw": [[name, val]],
-            "lib_prefix": None|str, "include_version": bool, "safe": bool}
+            "lib_prefix": None|str, "include_version": bool, "safe": bool,
+            optional "share": True (equal tag descriptions are ONE object), "label": str (big cases)}
 """
 from __future__ import annotations
 
@@ -94,6 +121,12 @@ def _known_f7(what, case, detail):
 # ------------------------------------------------------------------------------------
 # building live objects from descriptions
 # ------------------------------------------------------------------------------------
+class Objs(list):
+    """the dependency objects of one case; memo (when not None) makes Tags with EQUAL descriptions
+    the very same object within one build of the content (one object placed in several parents)"""
+    memo: dict | None = None
+
+
 def build_node(n: list, objs: list) -> Any:
     k = n[0]
     if k == "T":
@@ -108,16 +141,27 @@ def build_node(n: list, objs: list) -> Any:
         return objs[n[1]]
     if k == "G":
         _, name, ws, attrs, kids = n
+        memo = getattr(objs, "memo", None)
+        key = None
+        if memo is not None:
+            key = json.dumps(n)
+            if key in memo:
+                return memo[key]
         t = Tag(name, *[build_node(x, objs) for x in kids], _add_ws=ws)
-        for key, m, v in attrs:
+        for key_, m, v in attrs:
             # stored as is (name normalisation is C15's subject)
-            dict.__setitem__(t.attrs, key, HTML(v) if m == "H" else v)
+            dict.__setitem__(t.attrs, key_, HTML(v) if m == "H" else v)
+        if memo is not None:
+            memo[key] = t
         return t
     if k == "L":
         kb = [build_node(x, objs) for x in n[2]]
         return {"list": list, "tuple": tuple}.get(n[1], lambda l: TagList(*l))(kb)
     if k == "C":
-        return trees.CustomObj([build_node(x, objs) for x in n[1]], n[2])
+        kb = [build_node(x, objs) for x in n[1]]
+        if len(n) > 3:      # BOTH tagifiable and self-rendering (_repr_html_): in a document tagify() decides
+            return trees.CustomReprObj(kb, n[2], n[3])
+        return trees.CustomObj(kb, n[2])
     raise ValueError(n)
 
 
@@ -129,7 +173,7 @@ SOURCES = {
 
 
 def build_deps(deps: list) -> list:
-    objs: list = []
+    objs: list = Objs()
     for i, dd in enumerate(deps):
         if dd["kind"] == "hc":
             d = head_content(*[build_node(x, objs) for x in dd["args"]])
@@ -145,7 +189,13 @@ def build_deps(deps: list) -> list:
 
 
 def top_args(case: dict, objs: list) -> list:
-    return [build_node(x, objs) for x in case["args"]]
+    if isinstance(objs, Objs):
+        objs.memo = {} if case.get("share") else None      # sharing only within ONE build of the content
+    try:
+        return [build_node(x, objs) for x in case["args"]]
+    finally:
+        if isinstance(objs, Objs):
+            objs.memo = None
 
 
 def kw_value(v: list) -> Any:
@@ -211,7 +261,7 @@ def nodes_sx(nodes: list, objs: list) -> list:
         elif k == "L":
             out += nodes_sx(n[2], objs)
         elif k == "C":
-            out.append([5, [], nodes_sx(n[1], objs)])
+            out.append([5, [S(n[3])] if len(n) > 3 else [], nodes_sx(n[1], objs)])
         else:
             raise ValueError(n)
     return out
@@ -263,20 +313,42 @@ def spec_vcmp(a: list[int], b: list[int]) -> int:
     return (pa > pb) - (pa < pb)
 
 
-def spec_resolve(seq: list[int], deps: list) -> list[int]:
+def spec_keys(case: dict, objs: list) -> list:
+    """Which placed objects are ONE dependency, decided from the case description and never from
+    the names the implementation gave: an HTMLDependency by the name it was constructed with; a
+    head_content() item by its content (the statement: a content-named dependency, every
+    multiplicity of head_content() items) -- two items are the same dependency exactly when the
+    ordinary rendering of their arguments is the same text."""
+    keys = []
+    for dd in case["deps"]:
+        if dd["kind"] == "hc":
+            r = safe_call(lambda: TagList(*[build_node(x, objs) for x in dd["args"]]).get_html_string())
+            keys.append(("hc", r[1] if r[0] == "ok" else repr(dd["args"])))
+        else:
+            keys.append(("dep", dd["name"]))
+    return keys
+
+
+def spec_resolve(seq: list[int], deps: list, keys: list | None = None) -> list[int]:
     """one per name, names by first occurrence, each the earliest occurrence of maximal version"""
-    names: list[str] = []
+    if keys is None:
+        keys = [d.name for d in deps]
+    names: list = []
+    seen = set()
     for i in seq:
-        if deps[i].name not in names:
-            names.append(deps[i].name)
+        if keys[i] not in seen:
+            seen.add(keys[i])
+            names.append(keys[i])
+    by_name: dict = {}
+    for i in seq:
+        by_name.setdefault(keys[i], []).append(i)
     out = []
     for nm in names:
-        cands = [i for i in seq if deps[i].name == nm]
+        cands = list(dict.fromkeys(by_name[nm]))
         best = cands[0]
-        for i in cands:
-            if all(spec_vcmp(list(deps[i].version.release), list(deps[j].version.release)) >= 0 for j in cands):
+        for i in cands[1:]:       # a later one only when strictly greater: the earliest of the maximal ones
+            if spec_vcmp(list(deps[i].version.release), list(deps[best].version.release)) > 0:
                 best = i
-                break
         out.append(best)
     return out
 
@@ -340,7 +412,7 @@ def expected_document(case: dict, objs: list) -> tuple[Any, list[int], dict]:
     args = top_args(case, objs)
     items = list(TagList(*args))
     kw = {k: kw_value(v) for k, v in case["kw"]}
-    resolved = spec_resolve(doc_order(case["args"]), objs)
+    resolved = spec_resolve(doc_order(case["args"]), objs, spec_keys(case, objs))
     lp, iv = case["lib_prefix"], case["include_version"]
     hoisted = []
     if resolved:
@@ -486,7 +558,7 @@ def parsed_oracle(case: dict, objs: list, html_s: str, resolved: list[int], part
     want += forest(events(render_items(parts["uhk"])))
     if resolved:
         want.append(("script", (("type", "application/html-dependencies"),),
-                     [("#", ";".join(objs[i].name + "[" + str(objs[i].version) + "]" for i in resolved))]))
+                     [("#", "".join(";".join(objs[i].name + "[" + str(objs[i].version) + "]" for i in resolved).split()))]))
     for b in parts["blocks"]:
         want += forest(events(render_items(b)))
     want = merge_text(want)
@@ -504,11 +576,14 @@ def parsed_oracle(case: dict, objs: list, html_s: str, resolved: list[int], part
                 n += 1
             n += count_listing(c[2])
         return n
-    if count_listing(f) != (1 if resolved else 0):
-        bad.append(("the application/html-dependencies script does not occur exactly once (never without dependencies)",
-                    {"count": count_listing(f)}))
     rest = [c for c in html_el[2] if c is not heads[0]]
     want_rest = forest(events(render_items(parts["pre"]))) + forest(events(render_items(parts["post"])))
+    # the document's own listing once (never without dependencies), besides whatever scripts of that type the
+    # user's own content / the dependencies' own markup hold
+    users = count_listing(want) - (1 if resolved else 0) + count_listing(want_rest) if has_listing_lookalike(case) else 0
+    if count_listing(f) != (1 if resolved else 0) + users:
+        bad.append(("the application/html-dependencies script does not occur exactly once (never without dependencies)",
+                    {"count": count_listing(f), "supplied_by_the_user": users}))
     if rest != want_rest:
         bad.append(("outside the head the document is not the content's ordinary rendering (dependency markup "
                     "left in the body, or content lost)", {"parsed_rest": repr(rest)[:600], "expected": repr(want_rest)[:600]}))
@@ -547,8 +622,16 @@ def run_impl(case: dict, objs: list):
         for a, b in zip(cuts[1:], cuts[2:]):
             if b > a:
                 doc.append(*args[a:b])
+        fields = [repr((d.name, str(d.version), d.source, d.script, d.stylesheet, d.meta, d.all_files,
+                        None if d.head is None else len(d.head))) for d in objs]
         r = doc.render(lib_prefix=case["lib_prefix"], include_version=case["include_version"])
         out = ([getattr(d, "_verif_id", -1) for d in r["dependencies"]], r["html"])
+        # the result belongs to the caller: emptying it must not reach into the document
+        r["dependencies"].clear()
+        r["html"] = ""
+        if [repr((d.name, str(d.version), d.source, d.script, d.stylesheet, d.meta, d.all_files,
+                  None if d.head is None else len(d.head))) for d in objs] != fields:
+            side.append("render() changed the caller's dependency objects")
         r2 = doc.render(lib_prefix=case["lib_prefix"], include_version=case["include_version"])
         if ([getattr(d, "_verif_id", -1) for d in r2["dependencies"]], r2["html"]) != out:
             side.append("a second render() of the same document gives a different result")
@@ -561,6 +644,8 @@ def run_impl(case: dict, objs: list):
 
 def kind_of(case: dict) -> str:
     k = construction_case(case)
+    if "label" in case:
+        k = "big (" + "".join(ch for ch in case["label"] if not ch.isdigit()).replace("  ", " ").strip() + "): " + k
     if case["split"]:
         k += "+append"
     if dep_in_dep_head(case):
@@ -733,10 +818,8 @@ def rand_history(rng) -> dict:
     if ops[-1][0] not in ("render", "save"):
         ops.append(["render"] + rng.choice(settings))
     if any(o[0] == "save" for o in ops):
-        # save_html copies files: only dependencies without local files (none / url source)
-        for d in deps:
-            if d["kind"] == "dep" and d["source"] == "pkg":
-                d["source"] = rng.choice(["none", "href"])
+        # save_html copies files: dependencies without local files (none / url source) or with files that exist
+        make_savable(rng, deps)
     return {"deps": deps, "args": args, "kw": rand_kw(rng, safe) if rng.random() < 0.5 else [], "safe": safe, "ops": ops}
 
 
@@ -798,7 +881,7 @@ def check_cases(ctx: Ctx, name: str, cases: list[dict], built: list, model: list
                               {**det, "expected": want_html})
             if ids != resolved:
                 ctx.violation(WHAT_RETURNED, c, {**det, "expected": resolved})
-            lst = listing_of(html_s) if c["safe"] else None
+            lst = listing_of(html_s) if c["safe"] and not has_listing_lookalike(c) else None
             names = [objs[i].name + "[" + str(objs[i].version) + "]" for i in ids if 0 <= i < len(objs)]
             if lst is not None and lst != ([";".join(names)] if names else []):
                 ctx.violation(WHAT_LISTING, c, {**det, "expected": ";".join(names), "listing": lst})
@@ -831,11 +914,295 @@ def check_cases(ctx: Ctx, name: str, cases: list[dict], built: list, model: list
                 ctx.extra.setdefault("disagreements", []).extend(l[:2])
 
 
+# ------------------------------------------------------------------------------------
+# EVERY ENTRY POINT, NON-DEFAULT ARGUMENTS, FEATURES TOGETHER, SHARED STATE
+# One document input, every public way of getting its rendering; each result is judged against the
+# document the statement describes (expected_document: the same oracle as the plain route).
+# ------------------------------------------------------------------------------------
+WHAT_ROUTE = "another way of building / rendering the same document gives a different document: "
+
+
+def snapshot_deps(objs: list) -> list:
+    """the caller's dependency objects, field by field (public attributes)"""
+    out = []
+    for d in objs:
+        out.append(repr((d.name, str(d.version), d.source, d.script, d.stylesheet, d.meta, d.all_files,
+                         None if d.head is None else safe_call(lambda: d.head.get_html_string()))))
+    return out
+
+
+def build_with_blocks(case: dict, objs: list) -> list:
+    """The same content, every tag filled through its with-block: `with tag:` installs a
+    sys.displayhook that appends each displayed value to the tag, and on exit displays the tag
+    itself to the enclosing hook (so nested blocks nest the tags)."""
+    import sys
+    got: list = []
+    old = sys.displayhook
+    sys.displayhook = htmltools.wrap_displayhook_handler(got.append)
+
+    def emit(n: list) -> None:
+        if n[0] == "G":
+            t = Tag(n[1], _add_ws=n[2])
+            for key, m, v in n[3]:
+                dict.__setitem__(t.attrs, key, HTML(v) if m == "H" else v)
+            with t:
+                for x in n[4]:
+                    emit(x)
+        else:
+            sys.displayhook(build_node(n, objs))
+    try:
+        for n in case["args"]:
+            emit(n)
+    finally:
+        sys.displayhook = old
+    return got
+
+
+def with_block_view(nodes: list) -> list:
+    """the content a with-block build really holds: a self-rendering object displayed inside a block
+    is stored as HTML(its markup) (wrap_displayhook_handler); inside a list it stays what it is"""
+    out = []
+    for n in nodes:
+        if n[0] == "G":
+            out.append(["G", n[1], n[2], n[3], with_block_view(n[4])])
+        elif n[0] == "R":
+            out.append(["H", n[1]])
+        else:
+            out.append(n)
+    return out
+
+
+def want_of(c: dict, objs: list) -> Any:
+    exp, resolved, _parts = expected_document(c, objs)
+    if isinstance(exp, tuple):
+        return exp
+    return ("ok", (resolved, "<!DOCTYPE html>\n" + exp.get_html_string()))
+
+
+def ids_of(r: dict) -> list[int]:
+    return [getattr(d, "_verif_id", -1) for d in r["dependencies"]]
+
+
+def routes_of(case: dict, objs: list) -> list[tuple[str, Any]]:
+    """(route name, thunk -> (ids, html))"""
+    lp, iv = case["lib_prefix"], case["include_version"]
+    kw = lambda: {k: kw_value(v) for k, v in case["kw"]}      # noqa: E731
+    plain_kw = not any(k in ("_add_ws", "_name") for k, _ in case["kw"])
+    # save_html copies the files of package dependencies: possible when they name files that exist
+    # (htmltools/libtest) and the library directory stays inside the temporary directory
+    no_files = all(d["kind"] == "hc" or d["source"] != "pkg" or copyable(d) for d in case["deps"]) and \
+        (not lp or (not lp.startswith("/") and ".." not in lp and "\\" not in lp))
+    flat = flat_items(case["args"])
+
+    def rendered(doc):
+        r = doc.render(lib_prefix=lp, include_version=iv)
+        return (ids_of(r), r["html"])
+
+    def plain(**how):
+        r = mk().render(**how)
+        return (ids_of(r), r["html"])
+
+    def mk():
+        return HTMLDocument(*top_args(case, objs), **kw())
+
+    def json_mode():
+        old = htmltools.html_dependency_render_mode
+        htmltools.html_dependency_render_mode = "json"
+        try:
+            return rendered(mk())
+        finally:
+            htmltools.html_dependency_render_mode = old
+
+    def saved(how: str):
+        import shutil
+        import tempfile
+        tmp = tempfile.mkdtemp(prefix="verif-c11r-")
+        try:
+            path = os.path.join(tmp, "sub dir", "index.html")
+            os.makedirs(os.path.dirname(path))
+            args = top_args(case, objs)
+            if how == "doc-keywords":
+                ret = HTMLDocument(*args, **kw()).save_html(path, libdir=lp, include_version=iv)
+            elif how == "doc-positional":
+                ret = HTMLDocument(*args, **kw()).save_html(path, lp, iv)
+            elif how == "doc-defaults":
+                ret = HTMLDocument(*args, **kw()).save_html(path)
+            elif how == "taglist":
+                ret = TagList(*args).save_html(path, libdir=lp, include_version=iv)
+            else:
+                ret = TagList(*args)[0].save_html(path, libdir=lp, include_version=iv)
+            with open(path, encoding="utf-8", newline="") as f:
+                text = f.read()
+            return (None if ret == path else ("returned", ret), text)
+        finally:
+            shutil.rmtree(tmp, ignore_errors=True)
+
+    def concat(how: str):
+        args = top_args(case, objs)
+        k = len(args) // 2
+        if how == "add":
+            x = TagList(*args[:k]) + args[k:]
+        elif how == "radd":
+            x = args[:k] + TagList(*args[k:])
+        else:
+            x = TagList(*args[:k])
+            x += args[k:]
+        return rendered(HTMLDocument(x, **kw()))
+
+    def via_consolidate():
+        attrs, children = htmltools.consolidate_attrs(*top_args(case, objs), **kw())
+        return rendered(HTMLDocument(*children, **attrs))
+
+    def appended_one_by_one():
+        doc = HTMLDocument(**kw())
+        for a in top_args(case, objs):
+            doc.append(a)
+        return rendered(doc)
+
+    def from_copy(deep: bool):
+        doc = mk()
+        cp = _copy.deepcopy(doc) if deep else _copy.copy(doc)
+        r = rendered(cp)
+        if rendered(doc) != r:
+            return ("the document and its copy render differently", r)
+        return r
+
+    out = [("copy.copy(doc).render()", lambda: from_copy(False)),
+           ("copy.deepcopy(doc).render()", lambda: from_copy(True)),
+           ("doc.render() while htmltools.html_dependency_render_mode = 'json'", json_mode),
+           ("content built through with-blocks (sys.displayhook)",
+            lambda: rendered(HTMLDocument(*build_with_blocks(case, objs), **kw()))),
+           ("HTMLDocument(TagList(first half) + second half)", lambda: concat("add")),
+           ("HTMLDocument(first half + TagList(second half))", lambda: concat("radd")),
+           ("HTMLDocument(x) after x += second half", lambda: concat("iadd")),
+           ("HTMLDocument(**kw) then one append() per item", appended_one_by_one),
+           ("htmltools._core.HTMLDocument", lambda: rendered(htmltools._core.HTMLDocument(*top_args(case, objs), **kw())))]
+    if lp == "lib" and iv:
+        out.append(("doc.render() with the default arguments", lambda: plain()))
+    elif lp == "lib":
+        out.append(("doc.render(include_version=False), lib_prefix left to its default", lambda: plain(include_version=False)))
+    elif iv:
+        out.append(("doc.render(lib_prefix=...), include_version left to its default", lambda: plain(lib_prefix=lp)))
+    if plain_kw:
+        out.append(("HTMLDocument(*children, **attrs) from consolidate_attrs(*args, **kw)", via_consolidate))
+    if not any(n[0] == "C" for n in flat):
+        out.append(("HTMLDocument(TagList(*args).tagify())", lambda: rendered(HTMLDocument(TagList(*top_args(case, objs)).tagify(), **kw()))))
+    if no_files:
+        out.append(("doc.save_html(file, libdir=, include_version=)", lambda: saved("doc-keywords")))
+        out.append(("doc.save_html(file, libdir, include_version) positionally", lambda: saved("doc-positional")))
+        if lp == "lib" and iv:
+            out.append(("doc.save_html(file) with the default arguments", lambda: saved("doc-defaults")))
+        if not case["kw"]:
+            out.append(("TagList(*args).save_html(...)", lambda: saved("taglist")))
+            if len(flat) == 1 and flat[0][0] == "G":
+                out.append(("Tag.save_html(...)", lambda: saved("tag")))
+    return out
+
+
+DECOY_WANT: list = []
+
+
+PKG_FILES = {"script": ["testdep/testdep.js", "dep2/td2.js"], "stylesheet": ["testdep/testdep.css", "dep2/td2.css"]}
+
+
+def copyable(d: dict) -> bool:
+    return all(x["src"] in PKG_FILES["script"] for x in d["script"]) and \
+        all(x["href"] in PKG_FILES["stylesheet"] for x in d["stylesheet"])
+
+
+def make_savable(rng, deps: list) -> None:
+    """save_html copies files: package dependencies either name files that exist in htmltools/libtest
+    (so that libdir really decides the URLs written into the document) or lose their local source"""
+    for d in deps:
+        if d["kind"] == "dep" and d["source"] == "pkg":
+            if rng.random() < 0.5:
+                d["script"] = [dict(x, src=rng.choice(PKG_FILES["script"])) for x in d["script"]]
+                d["stylesheet"] = [dict(x, href=rng.choice(PKG_FILES["stylesheet"])) for x in d["stylesheet"]]
+            else:
+                d["source"] = rng.choice(["none", "href"])
+
+
+def route_cases(rng, n: int) -> list[dict]:
+    out = [_copy.deepcopy(c) for c in FIXED[1:]]
+    for _ in range(n):
+        c = rand_case(rng)
+        if rng.random() < 0.7:
+            make_savable(rng, c["deps"])
+        r = rng.random()
+        if r < 0.3:                  # the settings that are the defaults of render / save_html
+            c["lib_prefix"], c["include_version"] = "lib", True
+        elif r < 0.4:
+            c["lib_prefix"] = "lib"
+        out.append(c)
+    # some big ones as well (not the longest strings: every route renders them again)
+    out += [dict(c, label=l) for l, c in big_cases(rng) if len(json.dumps(c)) < 40000][:ROUTE_BIG]
+    return out
+
+
+ROUTE_BIG = 12
+
+
+def check_routes(ctx: Ctx, cases: list[dict]) -> None:
+    n_routes = 0
+    for c in cases:
+        if dep_in_dep_head(c):
+            continue          # finding F7: the plain route already disagrees with the statement there
+        objs = build_deps(c["deps"])
+        ctx.count(["routes", c], nontrivial(c), "every entry point: " + construction_case(c))
+        want: Any = want_of(c, objs)
+        wb = with_block_view(c["args"])
+        want_wb = want if wb == c["args"] else want_of(dict(c, args=wb), objs)
+        deps_before = snapshot_deps(objs)
+        # STATE SHARED BETWEEN OBJECTS: a second, unrelated document made before and one made after must not notice
+        decoy1 = HTMLDocument(Tag("p", "decoy"), HTMLDependency("zz", "9", head="<i>z</i>"), id="decoy")
+        safe_call(decoy1.render)
+        for name, thunk in routes_of(c, objs):
+            got = safe_call(thunk)
+            n_routes += 1
+            w = want
+            if name.startswith("content built through with-blocks"):
+                w = want_wb
+            if name.startswith(("doc.save_html", "TagList(*args).save_html", "Tag.save_html")) and want[0] == "ok":
+                w = ("ok", (None, want[1][1]))
+            if got != w:
+                ctx.violation(WHAT_ROUTE + name, c, {"impl_output": repr(got)[:3000], "expected": repr(w)[:3000]})
+        decoy2 = HTMLDocument()
+        d1 = safe_call(lambda: (lambda r: (len(r["dependencies"]), r["html"]))(decoy1.render()))
+        d2 = safe_call(lambda: (lambda r: (len(r["dependencies"]), r["html"]))(decoy2.render()))
+        if not DECOY_WANT:
+            e1 = Tag("html", Tag("head", Tag("meta", charset="utf-8"),
+                                 Tag("script", "zz[9]", type=LISTING_TYPE), HTML("<i>z</i>")),
+                     Tag("body", Tag("p", "decoy")), id="decoy")
+            e2 = Tag("html", Tag("head", Tag("meta", charset="utf-8")), Tag("body"))
+            DECOY_WANT.extend([("ok", (1, "<!DOCTYPE html>\n" + e1.get_html_string())),
+                               ("ok", (0, "<!DOCTYPE html>\n" + e2.get_html_string()))])
+        if [d1, d2] != DECOY_WANT:
+            ctx.violation("an unrelated document built in the same process is influenced by the documents built "
+                          "in between (state shared between objects)", c,
+                          {"impl_output": repr([d1, d2])[:1500], "expected": repr(DECOY_WANT)[:1500]})
+        if snapshot_deps(objs) != deps_before:
+            ctx.violation("building / rendering / saving documents changed the caller's dependency objects", c,
+                          {"impl_output": repr(snapshot_deps(objs))[:1500], "expected": repr(deps_before)[:1500]})
+    ctx.extra["routes_evaluated"] = ctx.extra.get("routes_evaluated", 0) + n_routes
+
+
 def check_head_content(ctx: Ctx, rng, n: int) -> None:
     cases = []
     for _ in range(n):
         safe = rng.random() < 0.5
         cases.append([rand_node(rng, 2, 0, safe, custom=False, deps_ok=False) for _ in range(rng.choice([0, 1, 1, 2, 3]))])
+    # near-duplicates: equal up to the last character / the last of many nodes, long and short, every encoding width
+    for L, unit in [(rng.choice(LONG_1), rng.choice(list(UNITS))), (rng.choice(LONG_2), rng.choice(list(UNITS))),
+                    (rng.choice(LONG_2), rng.choice(list(UNITS))), (rng.choice(LONG_3), rng.choice(list(UNITS)[1:])),
+                    (rng.choice([1, 2, 7, 63, 64, 65]), rng.choice(list(UNITS)))]:
+        P = long_text(unit, L - 1)
+        k = rng.choice("THG")
+        for tail in ("a", "b"):
+            cases.append([["G", "style", True, [], [["T", P + tail]]]] if k == "G" else [[k, P + tail]])
+        cases.append([["H" if k == "T" else "T", P + "a"]])      # the same content, built the other way
+    for n in three_sizes(rng):
+        many = [["G", "meta", True, [["name", "S", f"m{i}"]], []] for i in range(n)]
+        cases += [many, many[:-1], many[:-1] + [["G", "meta", True, [["name", "S", "other"]], []]]]
     model = run_model([[2, nodes_sx(a, [])] for a in cases], driver="c11")
     bad = []
     for a, m in zip(cases, model):
@@ -858,6 +1225,23 @@ def check_head_content(ctx: Ctx, rng, n: int) -> None:
     ctx.obligation(f"correspondence head_content name/markup ({len(cases)} cases)", not bad)
     if bad:
         ctx.extra["disagree_head_content"] = bad[:3]
+    # oracle: CONTENT-NAMED.  Items with the same content are one dependency (same name), items with
+    # different content are different dependencies (different names) -- whatever the naming scheme.
+    by_content: dict = {}
+    by_name: dict = {}
+    for a in cases:
+        built = safe_call(lambda: (TagList(*[build_node(x, []) for x in a]).get_html_string(),
+                                   head_content(*[build_node(x, []) for x in a]).name))
+        if built[0] != "ok":
+            continue
+        content, name = built[1]
+        for tbl, k, v, what in ((by_content, content, name, "two head_content() items with the same content have different names"),
+                                (by_name, name, content, "two head_content() items with different content have the same name "
+                                                         "(only one of them would reach the head)")):
+            if k in tbl and tbl[k][0] != v:
+                ctx.violation(what, {"first": tbl[k][1], "second": a},
+                              {"impl_output": repr((tbl[k][0], v))[:400], "expected": "names that identify the content"})
+            tbl.setdefault(k, (v, a))
 
 
 # ------------------------------------------------------------------------------------
@@ -881,8 +1265,62 @@ def rand_attrs(rng, safe: bool) -> list:
     return [[k, "S" if safe or rng.random() < 0.75 else "H", txt(rng, safe)] for k in keys]
 
 
+LISTING_TYPE = "application/html-dependencies"
+# objects that are BOTH tagifiable and self-rendering are generated for documents only (switched on by
+# _run_main; the dependency-markup bridge deptags.py shares rand_node and has no encoding for them)
+BOTH_KINDS = [False]
+CHARSETS = ["utf-8", "UTF-8", "iso-8859-1", "latin1", "utf-16"]
+
+
+def rand_lookalike(rng, safe: bool) -> list:
+    """User content that LOOKS LIKE what the document itself inserts (a meta charset, a listing
+    script, link / script tags such as a dependency contributes, a title, nested head / body / html
+    tags, and -- as raw markup -- a doctype or a ready-made head): the statement makes no
+    exception for it, it is ordinary content that must survive where the user put it."""
+    r = rng.randrange(12 if safe else 17)
+    if r <= 2:
+        extra = [["name", "S", "m"]] if rng.random() < 0.15 else []
+        at = [["charset", "S", rng.choice(CHARSETS)]] + extra
+        if rng.random() < 0.3:
+            at.reverse()
+        return ["G", "meta", True, at, []]
+    if r == 3:
+        return ["G", "meta", True, [["name", "S", "viewport"], ["content", "S", "w1"]], []]
+    if r == 4:
+        return ["G", "meta", True, [["http-equiv", "S", "Content-Type"], ["content", "S", "text/html; charset=utf-8"]], []]
+    if r == 5:
+        return ["G", "script", True, [["type", "S", LISTING_TYPE]], [["T", rng.choice(["a[1.0]", "jq[2]", "b[1.9];a[1]", ""])]]]
+    if r == 6:
+        return ["G", "script", True, [["src", "S", rng.choice(["a.js", "lib/a-1.0/a.js"])]], []]
+    if r == 7:
+        return ["G", "link", True, [["href", "S", "s.css"], ["rel", "S", "stylesheet"]], []]
+    if r == 8:
+        return ["G", "title", True, [], [["T", "t"]]]
+    if r == 9:
+        return ["G", "head", True, [], [["G", "meta", True, [["charset", "S", "utf-8"]], []]] if rng.random() < 0.5 else []]
+    if r == 10:
+        return ["G", rng.choice(["body", "html"]), True, [], [["T", "n"]]]
+    if r == 11:
+        return ["G", "base", True, [["href", "S", "u"]], []]
+    return [rng.choice("HHT"), rng.choice(['<meta charset="utf-8"/>', "<!DOCTYPE html>", "<head></head>", "</head><body>",
+                                           '<script type="application/html-dependencies">x[1]</script>', "<html>", "</html>"])]
+
+
+def has_listing_lookalike(x: Any) -> bool:
+    """some script of the listing's type, or raw markup, is part of the user's input"""
+    if isinstance(x, dict):
+        return any(has_listing_lookalike(v) for v in x.values())
+    if isinstance(x, list):
+        if len(x) == 5 and x[0] == "G" and x[1] == "script" and any(a[0] == "type" and a[2] == LISTING_TYPE for a in x[3]):
+            return True
+        return any(has_listing_lookalike(v) for v in x)
+    return isinstance(x, str) and LISTING_TYPE in x
+
+
 def rand_node(rng, depth: int, nd: int, safe: bool, custom: bool = True, deps_ok: bool = True,
               lists: bool = True) -> list:
+    if rng.random() < 0.035:
+        return rand_lookalike(rng, safe)
     r = rng.random()
     if depth > 0 and r < 0.32:
         if safe or rng.random() < 0.75:
@@ -899,6 +1337,8 @@ def rand_node(rng, depth: int, nd: int, safe: bool, custom: bool = True, deps_ok
         n = rng.choice([0, 1, 1, 2, 3])
         as_list = n != 1 or rng.random() < 0.6
         exp = [rand_node(rng, depth - 1, nd, safe, False, deps_ok, False) for _ in range(n)]
+        if BOTH_KINDS[0] and rng.random() < 0.25:     # also self-rendering: the document tagifies, so the expansion counts
+            return ["C", exp, as_list, txt(rng, safe)]
         return ["C", exp, as_list]
     if deps_ok and nd > 0 and r < 0.80:
         return ["D", rng.randrange(nd)]
@@ -979,6 +1419,9 @@ def rand_kw(rng, safe: bool) -> list:
 
 def rand_head(rng, nd, safe, custom: bool = True) -> list:
     kids = rand_kids(rng, 1, nd, safe, custom=custom and rng.random() < 0.3, lists=custom)
+    if rng.random() < 0.35:
+        for _ in range(rng.choice([1, 1, 2])):
+            kids.insert(rng.randrange(len(kids) + 1), rand_lookalike(rng, safe))
     return ["G", "head", rng.random() < 0.9, rand_attrs(rng, safe) if rng.random() < 0.3 else [], kids]
 
 
@@ -1055,9 +1498,237 @@ def rand_case(rng, mode: str | None = None, f7: bool = False) -> dict:
         cuts = [k]
         if k + 1 < len(args) and rng.random() < 0.4:
             cuts.append(rng.randrange(k + 1, len(args)))
-    return {"deps": deps, "args": args, "split": cuts, "kw": rand_kw(rng, safe),
-            "lib_prefix": rng.choice([None, "lib", "a/b"]), "include_version": rng.random() < 0.5,
-            "safe": safe}
+    case = {"deps": deps, "args": args, "split": cuts, "kw": rand_kw(rng, safe),
+            "lib_prefix": rng.choice([None, "lib", "a/b"]) if rng.random() < 0.85 else rng.choice(ODD_PREFIXES),
+            "include_version": rng.random() < 0.5, "safe": safe}
+    if rng.random() < 0.12 and share_some(rng, case["args"]):
+        case["share"] = True
+    return case
+
+
+ODD_PREFIXES = ["", "lib/", "a/b/c", "l b", "l\u00efb", "x.+(y)[z]$", "../up", "/abs", "a//b", "%41", "\\1"]
+
+
+def child_lists(nodes: list, acc: list) -> list:
+    """every list of children of the description that the content is built from directly (not the
+    expansions of objects: those are fresh objects on every tagify())"""
+    acc.append(nodes)
+    for n in nodes:
+        if n[0] == "G":
+            child_lists(n[4], acc)
+        elif n[0] == "L":
+            child_lists(n[2], acc)
+    return acc
+
+
+def share_some(rng, args: list) -> bool:
+    """ONE OBJECT IN TWO PARENTS: an equal copy of some tag of the content is put at a second place
+    (with case['share'] equal descriptions are built as the same Tag object)"""
+    lists = child_lists(args, [])
+    tags = [n for l in lists for n in l if n[0] == "G" and n[1] not in ("html",)]
+    if not tags:
+        return False
+    t = _copy.deepcopy(rng.choice(tags))
+    inner = [l for l in lists if l is not args] or lists
+    dest = rng.choice(inner if rng.random() < 0.8 else lists)
+    if dest is args and construction_case({"args": args}) != "fragment":
+        return False
+    dest.insert(rng.randrange(len(dest) + 1), t)
+    return True
+
+
+# ------------------------------------------------------------------------------------
+# SIZE AND DEPTH: a handful of big documents per run.  Every countable thing the statement talks
+# about reaches sizes just below / at / above 8, 16, 32, 64, 128, 256 and 300 (nesting: up to 70),
+# strings reach >= 300, >= 5000 and >= 70000 characters (with the UTF-8 length crossing the usual
+# block sizes), and what matters is placed BEYOND the threshold: the last item, the tail of the
+# string, the seam.  Where two things must be told apart they are equal up to the tail.
+# ------------------------------------------------------------------------------------
+SIZES_SMALL = [7, 8, 9, 15, 16, 17, 31, 32, 33]
+SIZES_MID = [63, 64, 65, 127, 128, 129]
+SIZES_LARGE = [255, 256, 257, 300]
+DEPTHS = [7, 8, 9, 15, 16, 17, 31, 32, 33, 63, 64, 65, 70]
+LONG_1 = [299, 300, 301, 511, 513]
+LONG_2 = [1365, 1366, 1367, 2047, 2049, 4095, 4096, 4097, 5000, 8191, 8192, 8193]
+LONG_3 = [65535, 65536, 65537, 70000, 70001]
+UNITS = {"ascii": "abcxyz019", "latin": "éaü", "cjk": "日本語", "astral": "\U0001F600\U00010348",
+         "mixed": "abé c日d\U0001F600e"}
+
+
+def three_sizes(rng) -> list[int]:
+    return [rng.choice(SIZES_SMALL), rng.choice(SIZES_MID), rng.choice(SIZES_LARGE)]
+
+
+def long_text(unit: str, n: int) -> str:
+    u = UNITS[unit]
+    return (u * (n // len(u) + 1))[:n]
+
+
+def mk_dep(name: str, version: str = "1.0", source: str = "href", meta=None, stylesheet=None, script=None, head=None) -> dict:
+    return {"kind": "dep", "name": name, "version": version, "source": source, "meta": meta or [],
+            "stylesheet": stylesheet or [], "script": script or [], "head": head}
+
+
+def mk_case(deps: list, args: list, **kw) -> dict:
+    c = {"deps": deps, "args": args, "split": [], "kw": [], "lib_prefix": "lib", "include_version": True, "safe": True}
+    c.update(kw)
+    return c
+
+
+def wrap_deep(rng, node: list, d: int, how: str) -> list:
+    """node at the bottom of d wrappers"""
+    for i in range(d):
+        k = how if how != "mix" else rng.choice(["tag", "tag", "list", "tuple", "taglist", "obj"])
+        side = [["T", "s"]] if rng.random() < 0.2 else []
+        if k == "tag":
+            node = ["G", rng.choice(["div", "section", "span", "ul"]), rng.random() < 0.8, [], side + [node]]
+        elif k == "obj":
+            exp = expand_customs([node])
+            node = ["C", exp, len(exp) != 1 or rng.random() < 0.5]
+        else:
+            node = ["L", k, side + [node]]
+    return node
+
+
+def big_cases(rng) -> list[tuple[str, dict]]:
+    out: list[tuple[str, dict]] = []
+    settings = [("lib", True), (None, False), ("a/b", True), ("lib", False)]
+
+    def st():
+        lp, iv = rng.choice(settings)
+        return {"lib_prefix": lp, "include_version": iv}
+
+    def mode_wrap(args: list, deps_n: int) -> list:
+        """the same children as a fragment, in a lone body, or in the body of a lone html with its own head"""
+        r = rng.random()
+        if r < 0.4:
+            return args
+        if r < 0.6:
+            return [["G", "body", True, [["id", "S", "b"]], args]]
+        return [["G", "html", True, [["lang", "S", "fr"]],
+                 [["G", "head", True, [], [["G", "title", True, [], [["T", "t"]]]]], ["G", "body", True, [], args]]]]
+
+    # -- many distinct dependencies; the last ones differ in kind; a later higher version of the FIRST name
+    for n in three_sizes(rng):
+        deps = [mk_dep(f"d{i}", rng.choice(VERSIONS), rng.choice(["href", "none", "pkg"]), script=[{"src": f"s{i}.js"}])
+                for i in range(n)]
+        deps[-1] = mk_dep(f"d{n - 1}", "2", "href", meta=[{"name": "last", "content": "m"}], stylesheet=[{"href": "l.css"}],
+                          head=["str", "<i>last</i>"])
+        deps.append(mk_dep("d0", "99.1", "href", script=[{"src": "newer.js"}]))
+        kids = [["D", i] if rng.random() < 0.7 else ["G", "div", True, [], [["T", "x"], ["D", i]]] for i in range(n)]
+        kids.append(["G", "p", True, [], [["D", n]]])
+        out.append((f"{n} distinct dependencies", mk_case(deps, mode_wrap(kids, n), **st())))
+    # -- many versions of ONE name: the maximal one late, an equal one after it
+    for n in three_sizes(rng):
+        vs = [f"1.{rng.randrange(0, 50)}.{rng.randrange(0, 9)}" for _ in range(n)]
+        top = rng.choice([n - 1, n - 2, n // 2 + 1])
+        vs[top] = "1.50"
+        if top + 1 < n:
+            vs[n - 1] = "1.50.0"
+        deps = [mk_dep("jq", v, "href", script=[{"src": f"v{i}.js"}]) for i, v in enumerate(vs)]
+        kids = [["D", i] for i in range(n)]
+        out.append((f"{n} versions of one name", mk_case(deps, mode_wrap(kids, n), **st())))
+    # -- one dependency with many meta / stylesheet / script items, and many head payload nodes
+    for n in three_sizes(rng):
+        d = mk_dep("a", "1.0", rng.choice(["href", "pkg"]), meta=[{"name": f"m{i}", "content": f"c{i}"} for i in range(n)],
+                   stylesheet=[{"href": f"s{i}.css"} for i in range(n)], script=[{"src": f"j{i}.js"} for i in range(n)],
+                   head=["nodes", [["G", "meta", True, [["name", "S", f"h{i}"]], []] for i in range(n)]])
+        out.append((f"{n} items per dependency part", mk_case([d, mk_dep("b", "1", "none", head=["str", "<i>b</i>"])],
+                                                              mode_wrap([["D", 1], ["T", "x"], ["D", 0]], 2), **st())))
+    # -- many head_content() items that differ only in their last node; one repeated (same content, other object)
+    for n in three_sizes(rng):
+        common_ = [["G", "meta", True, [["name", "S", "k"], ["content", "S", "v"]], []]] * rng.choice([1, 3])
+        deps = [{"kind": "hc", "args": common_ + [["G", "meta", True, [["name", "S", f"i{i}"]], []]]} for i in range(n)]
+        deps.append(_copy.deepcopy(deps[rng.randrange(n)]))
+        kids = [["D", i] for i in range(n + 1)]
+        rng.shuffle(kids)
+        out.append((f"{n} head_content items", mk_case(deps, mode_wrap(kids, n), **st())))
+    # -- a user html with many children: the head last / at the seam, a head with many children whose LAST
+    #    child is a meta charset, a body with many children and the dependency last
+    for n in three_sizes(rng):
+        deps = [mk_dep("a", "1.0", "href", script=[{"src": "a.js"}]), {"kind": "hc", "args": [["G", "title", True, [], [["T", "hc"]]]]}]
+        hk = [["G", "meta", True, [["name", "S", f"n{i}"]], []] for i in range(n - 1)] + \
+             [rng.choice([["G", "meta", True, [["charset", "S", rng.choice(CHARSETS)]], []], ["D", 1],
+                          ["G", "script", True, [["type", "S", LISTING_TYPE]], [["T", "a[1.0]"]]]])]
+        bk = [["G", "p", True, [], [["T", f"p{i}"]]] for i in range(n - 1)] + [["D", 0]]
+        pre = [["G", "div", True, [], [["T", f"c{i}"]]] if i != n // 2 else ["D", 1] for i in range(n - 1)]
+        r = rng.random()
+        if r < 0.4:       # the head is the LAST of n children of html
+            kids = pre + [["G", "head", True, [], hk[-3:]]]
+        elif r < 0.7:     # big head, big body
+            kids = [["G", "head", True, [], hk], ["G", "body", True, [], bk]]
+        else:             # body first, then n - 1 others, then the head, then a second head
+            kids = [["G", "body", True, [], bk]] + pre + [["G", "head", True, [], hk], ["G", "head", True, [], []]]
+        out.append((f"user html with {n} children / head children", mk_case(deps, [["G", "html", True, [], kids]], **st())))
+    # -- depth: the dependency (and a head_content item) at the bottom of d wrappers
+    for d in [rng.choice(DEPTHS[:6]), rng.choice(DEPTHS[6:10]), rng.choice(DEPTHS[10:])]:
+        deps = [mk_dep("a", "1.0", "href", script=[{"src": "a.js"}]), {"kind": "hc", "args": [["G", "title", True, [], [["T", "deep"]]]]},
+                mk_dep("a", "1.1", "none", head=["str", "<i>n</i>"])]
+        how = rng.choice(["tag", "mix", "mix", "list", "taglist", "tuple"])
+        bottom = ["G", "p", True, [], [["D", 0], ["T", "x"], ["D", 1], ["D", 2]]]
+        r = rng.random()
+        if r < 0.5:
+            args = [["T", "before"], wrap_deep(rng, bottom, d, how)]
+        elif r < 0.75:    # the sole html tag inside d list wrappers is still the sole content
+            args = [wrap_deep(rng, ["G", "html", True, [], [["G", "body", True, [], [wrap_deep(rng, bottom, d, "tag")]]]], d,
+                              rng.choice(["list", "taglist", "tuple"]))]
+        else:             # inside the user's own head
+            args = [["G", "html", True, [], [["G", "head", True, [], [wrap_deep(rng, bottom, d, "tag" if how == "tag" else "mix")]]]]]
+        out.append((f"nesting depth {d} ({how})", mk_case(deps, args, **st())))
+    # -- many html attributes (keyword arguments), on a new html and merged into the user's own
+    for n in three_sizes(rng):
+        kw = [[f"data_k{i}", ["str", f"v{i}"]] for i in range(n - 1)] + [["class_", ["str", "last"]]]
+        if rng.random() < 0.5:
+            args = [["G", "html", True, [[f"data-k{i}", "S", "own"] for i in range(0, n, 2)] + [["class", "S", "own"]],
+                     [["G", "body", True, [], [["T", "x"]]]]]]
+        else:
+            args = [["T", "x"]]
+        out.append((f"{n} html attributes", mk_case([], args, kw=kw, **st())))
+    # -- many append calls (one item each); many placements of one object / of equal objects
+    for n in three_sizes(rng):
+        deps = [mk_dep("a", "1.0", "href", script=[{"src": "a.js"}]), mk_dep("a", "1.0", "href", script=[{"src": "a.js"}]),
+                mk_dep("b", "2", "none", head=["str", "<i>b</i>"])]
+        args = [rng.choice([["D", 0], ["D", 1], ["G", "p", True, [], [["T", f"t{i}"]]], ["G", "p", True, [], [["D", 0]]]])
+                for i in range(n - 1)] + [["D", 2]]
+        out.append((f"{n} append calls / placements", mk_case(deps, args, split=list(range(1, n)) if rng.random() < 0.7 else [], **st())))
+    # -- many attributes / class tokens on user tags that the document copies
+    for n in three_sizes(rng):
+        at = [[f"data-a{i}", "S", f"v{i}"] for i in range(n)] + [["class", "S", " ".join(f"c{i}" for i in range(n))]]
+        args = [["G", "html", True, at, [["G", "head", True, at, []], ["G", "body", True, at, [["D", 0]]]]]]
+        out.append((f"{n} attributes on html / head / body", mk_case([mk_dep("a", "1", "none", head=["str", "<i>a</i>"])], args, **st())))
+    # -- long version numbers / big components
+    for n in [rng.choice(SIZES_SMALL), rng.choice(SIZES_MID)]:
+        v1 = ".".join(["1"] * n)
+        deps = [mk_dep("a", v1, "href", script=[{"src": "1.js"}]), mk_dep("a", v1 + ".0", "href", script=[{"src": "2.js"}]),
+                mk_dep("a", v1[:-1] + "2", "href", script=[{"src": "3.js"}]), mk_dep("b", str(2 ** 53 + 1) + ".4294967296", "none", head=["str", "<i>b</i>"]),
+                mk_dep("b", str(2 ** 53) + ".4294967297", "none", head=["str", "<i>c</i>"])]
+        out.append((f"version with {n} components", mk_case(deps, [["D", 0], ["D", 3], ["D", 1], ["D", 4], ["D", 2]], **st())))
+    # -- long strings: things that must be told apart are equal up to the tail
+    picks = [(rng.choice(LONG_1), rng.choice(list(UNITS)))] + [(rng.choice(LONG_2), rng.choice(list(UNITS))) for _ in range(3)] + \
+            [(rng.choice(LONG_3), u) for u in rng.sample(list(UNITS), 2)]
+    for L, unit in picks:
+        P = long_text(unit, L - 1)
+        form = rng.choice(["style", "script", "html", "text", "title-attr"])
+
+        def item(tail: str) -> list:
+            s_ = P + tail
+            if form == "style":
+                return [["G", "style", True, [], [["T", s_]]]]
+            if form == "script":
+                return [["G", "script", True, [], [["H", s_]]]]
+            if form == "html":
+                return [["H", s_]]
+            if form == "text":
+                return [["T", s_]]
+            return [["G", "meta", True, [["name", "S", "d"], ["content", "S", s_]], []]]
+        deps = [{"kind": "hc", "args": item("a")}, {"kind": "hc", "args": item("b")}, {"kind": "hc", "args": item("a")},
+                mk_dep("n" + P[:299] + "a", "1", "none", head=["str", "<i>1</i>"]), mk_dep("n" + P[:299] + "b", "1", "none", head=["str", "<i>2</i>"]),
+                mk_dep("a", "1.0", "href", script=[{"src": P[:600] + ".js"}], head=["str", "<i>" + P + "</i>"])]
+        body = [["D", 0], ["G", "p", True, [["title", "S", P + "t"]], [["T", P + "x"]]], ["D", 3], ["D", 1], ["H", P + "h"], ["D", 2], ["D", 4], ["D", 5]]
+        rng.shuffle(body)
+        kw = [["lang", ["str", P[:5000] + "k"]]] if rng.random() < 0.5 else []
+        out.append((f"strings of {L} characters ({unit}) equal up to the last one", mk_case(deps, mode_wrap(body, 6), kw=kw, **st())))
+    return out
 
 
 def exhaustive_cases(maxlen: int) -> list[dict]:
@@ -1070,7 +1741,8 @@ def exhaustive_cases(maxlen: int) -> list[dict]:
             {"kind": "hc", "args": [["G", "title", True, [], [["T", "t"]]]]}]
     alpha = [
         ["G", "head", True, [], []],
-        ["G", "head", True, [["id", "S", "h"]], [["G", "title", True, [], [["T", "u"]]], ["D", 0]]],
+        ["G", "head", True, [["id", "S", "h"]], [["G", "title", True, [], [["T", "u"]]], ["D", 0],
+                                                   ["G", "meta", True, [["charset", "S", "latin1"]], []]]],
         ["G", "body", True, [], [["D", 1], ["T", "x"], ["D", 2]]],
         ["D", 0],
         ["G", "div", True, [], [["T", "d"]]],
@@ -1141,8 +1813,25 @@ def coqchk(ctx: Ctx) -> None:
         ctx.extra["coqchk_tail"] = out[-1500:]
 
 
+def raise_stack_limit() -> None:
+    """The extracted model recurses over strings (lists of code points); documents with strings of
+    70000 characters need more than the default 8 MiB of native stack.  The soft limit of this
+    process is raised (the model processes started later inherit it); nothing else changes."""
+    import resource
+    want = 2 << 30
+    try:
+        soft, hard = resource.getrlimit(resource.RLIMIT_STACK)
+        if hard != resource.RLIM_INFINITY:
+            want = min(want, hard)
+        if soft != resource.RLIM_INFINITY and soft < want:
+            resource.setrlimit(resource.RLIMIT_STACK, (want, hard))
+    except (ValueError, OSError):
+        pass
+
+
 def _run_main(ctx: Ctx) -> None:
     rng = ctx.rng
+    raise_stack_limit()
     ctx.rule = ("documents: 0-5 dependency objects (names from a pool of 4 so names collide, versions from {1, 1.0, "
                 "1.9, 1.10, 1.10.0, 01.2, 2, 0.0.1}; url / package / no source; 0-2 meta, stylesheet, script dicts "
                 "with extra keys and file names that need quoting; head payload absent, a str, or nodes) and "
@@ -1164,6 +1853,29 @@ def _run_main(ctx: Ctx) -> None:
                 "copy.copy(doc)}, 60% containing render / append / render with the same settings; after every render "
                 "(document and every copy) and save_html the result is compared with a fresh document built from the "
                 "content supplied so far and with the model. "
+                "User content that looks like what the document inserts (meta charset of any value, a script of the "
+                "listing's type, link/script tags like a dependency's, title, base, nested head/body/html, raw doctype / "
+                "head markup) is mixed into every stream (3.5% of nodes, 35% of user heads). 12% of the documents hold one "
+                "Tag OBJECT at two places; objects that are both tagifiable and self-rendering occur. head_content() items "
+                "are identified by their CONTENT on the specification side (never by the name the implementation gave). "
+                "BIG documents (about 35 per run, sizes drawn from {7,8,9,15,16,17,31,32,33 | 63,64,65,127,128,129 | "
+                "255,256,257,300}, one from each band per shape): n distinct dependencies with the odd one last and a "
+                "higher version of the first name after it; n versions of one name with the maximum late; n meta / "
+                "stylesheet / script items and head nodes per dependency; n head_content items differing in the last "
+                "node; a user html with n children (head last / at the seam / second head) and a head whose LAST of n "
+                "children is a meta charset / dependency / listing look-alike; nesting depth 7..70 of tags / lists / "
+                "tuples / TagLists / objects above the dependencies (also above a sole html, inside the user's head); n "
+                "html keyword attributes; n append calls; n placements; n attributes and class tokens on html/head/"
+                "body; versions with n components and components > 2^53; strings of 299..513, 1365..8193 and "
+                "65535..70001 characters (ASCII, 2-, 3-, 4-byte and mixed) as head_content payload (style / script / HTML / "
+                "text / attribute), dependency name, script src, head payload, body text, attribute and keyword value, "
+                "always in pairs EQUAL UP TO THE LAST CHARACTER. EVERY ENTRY POINT (see the list at the top of "
+                "harness/props/C11.py): ~150 documents are rendered through up to 17 routes each (copy / deepcopy, json "
+                "dependency mode, with-block built content, TagList + / += / tagify, consolidate_attrs, append per item, "
+                "defaults of render / save_html, keyword and positional save_html, Tag/TagList.save_html), each judged "
+                "against the statement's document; an unrelated document made before and one made after must be unaffected; "
+                "the caller's dependency objects are compared field by field before and after; the returned dict is emptied "
+                "before the second render. "
                 "A case is non-trivial when a dependency is placed, keyword attributes are given or the user's own "
                 "html is used. distinct = distinct canonical inputs.")
     ctx.assumptions = [
@@ -1182,13 +1894,25 @@ def _run_main(ctx: Ctx) -> None:
     if not ctx.quick:
         coqchk(ctx)
 
+    BOTH_KINDS[0] = True
+    try:
+        _run_streams(ctx, rng)
+    finally:
+        BOTH_KINDS[0] = False
+
+
+def _run_streams(ctx: Ctx, rng) -> None:
     groups = [("fixed+corpus", FIXED + load_corpus()),
               ("random documents", [rand_case(rng) for _ in range(ctx.budget(1600, 45000))]),
+              ("big documents (sizes around powers of two, depth, long strings)",
+               [dict(c, label=l) for _ in range(ctx.budget(1, 6)) for l, c in big_cases(rng)]),
               ("dependency inside a dependency's head payload",
                [rand_case(rng, f7=True) for _ in range(ctx.budget(300, 5000))]),
               ("every small html child sequence", exhaustive_cases(ctx.budget(3, 4)))]
     histories = FIXED_HISTORIES + [rand_history(rng) for _ in range(ctx.budget(450, 8000))]
     check_groups(ctx, groups, histories)
+
+    check_routes(ctx, route_cases(rng, ctx.budget(120, 3000)))
 
     check_head_content(ctx, rng, ctx.budget(400, 5000))
 
@@ -1207,6 +1931,7 @@ def replay(ctx: Ctx, path: str) -> None:
         r = json.load(f)
     print(json.dumps(r, indent=1)[:4000])
     c = r.get("case")
+    raise_stack_limit()
     if isinstance(c, dict) and "ops" in c:
         ctx.rule = "replay of one history on one document object"
         ctx.proof()
